@@ -225,10 +225,17 @@ def run_process(content, typ):
 # ------------------------------------------------------------------------------------------------
 # page programs
 # ------------------------------------------------------------------------------------------------
-NAMES_ASCII = ["Card", "_x1", "A_b_9", "T", "Lst__", "zZ0"]
-NAMES_UNI = ["Кнопка", "Bouton_é", "按鈕", "ǅx", "a\U0001d400", "µm", "Käse"]
+# A program is JSON: {"classes": [cls...], "page": nodes, "shell": ..., "js_ph": n, "css_ph": n}
+#   cls   = {"name", "base": i|None, "base2": i|None, "extend": absent|False|[i...], "js", "css", "mjs", "mcss", "jsdata", "cssdata",
+#            "root", "tpl": nodes}
+#   nodes = ["t", text] | ["c", j, body|None] | ["cf", j, [[slot, nodes, cond]...]] | ["dyn", j, body|None, "name"|"var"]
+#         | ["dynf", j, [[slot, nodes, cond]...]] | ["for", n, nodes] | ["if", bool, nodes] | ["el", tag, nodes]
+#         | ["slot", default nodes]  (the default slot "d") | ["nslot", name, default nodes] | ["jsdep"] | ["cssdep"]
+NAMES_ASCII = ["Card", "_x1", "A_b_9", "T", "Lst__", "zZ0", "__", "_9_", "A1_2_3", "x__y__z", "K9", "_0"]
+NAMES_UNI = ["Кнопка", "Bouton_é", "按鈕", "ǅx", "a\U0001d400", "µm", "Käse", "_ñ_1", "Ω9", "데이터_표"]
 JS_FILES = ["s/a.js", "s/b.js", "/abs/c.js", "https://cdn.x/d.js", "s/é.js", "s/q&r.js", "s/e.js"]
 CSS_FILES = ["s/a.css", "s/b.css", "/abs/c.css", "https://cdn.x/d.css", "s/ü.css", "s/e.css"]
+SLOT_NAMES = ["n1", "n2"]
 _prog_counter = [0]
 
 
@@ -243,38 +250,112 @@ def fake_module(name):
     return name
 
 
-def gen_class(rng, i, ncls, names_used, allow_ph, uni):
+def ancestors(classes, i):
+    out = set()
+    todo = [classes[i].get("base"), classes[i].get("base2")]
+    while todo:
+        b = todo.pop()
+        if b is None or b in out:
+            continue
+        out.add(b)
+        todo += [classes[b].get("base"), classes[b].get("base2")]
+    return out
+
+
+def gen_media(rng, c, shared):
+    """Media.js / Media.css of one class; `shared` = files other classes already use (drawn with higher probability)."""
+    if rng.random() < 0.6:
+        pool = JS_FILES + shared["js"] * 2
+        c["mjs"] = []
+        for f in rng.sample(pool, rng.randint(1, 3)):
+            if f not in c["mjs"]:
+                c["mjs"].append(f)
+        if rng.random() < 0.15:
+            c["mjs"].append("TAG:" + rng.choice(JS_FILES[:3]))       # SafeString tag, custom attributes
+        shared["js"] += [f for f in c["mjs"] if not f.startswith("TAG:")]
+    if rng.random() < 0.55:
+        pool = CSS_FILES + shared["css"] * 2
+        fs = []
+        for f in rng.sample(pool, rng.randint(1, 3)):
+            if f not in fs:
+                fs.append(f)
+        form = rng.random()
+        if form < 0.3:
+            c["mcss"] = {"all": fs}
+        elif form < 0.5:
+            c["mcss"] = {"all": fs[:1], "print": fs[1:] + fs[:1]} if len(fs) > 1 else {"print": fs}
+        elif form < 0.7:
+            # the same file under several media types, and a medium other classes do not use for it
+            c["mcss"] = {rng.choice(["screen", "print"]): fs, rng.choice(["all", "tv"]): fs[-1:]}
+        elif form < 0.8:
+            c["mcss"] = {"screen": fs[:1], "print": fs[:1], "all": fs[1:]}
+        else:
+            c["mcss"] = fs   # list form (django-components normalises to {"all": ...})
+        shared["css"] += fs
+
+
+def gen_class(rng, i, ncls, classes, names_used, allow_ph, uni, shared):
     pool = NAMES_UNI if (uni and rng.random() < 0.6) else NAMES_ASCII
     name = rng.choice(pool)
     while name in names_used:
-        name = name + rng.choice("xyz_7")
+        name = name + rng.choice(["x", "y", "_", "7", "__", "é" if uni else "q"])
     names_used.add(name)
-    c = {"name": name, "base": None, "js": None, "css": None, "mjs": [], "mcss": None, "jsdata": False, "cssdata": False}
-    if i > 0 and rng.random() < 0.25:
+    c = {"name": name, "base": None, "base2": None, "js": None, "css": None, "mjs": [], "mcss": None, "jsdata": False, "cssdata": False}
+    if i > 0 and rng.random() < 0.35:
         c["base"] = rng.randrange(i)
-    c["js"] = rng.choice(["/*js%d*/" % i] * 4 + [None, None, "", "  \n"])
-    c["css"] = rng.choice([".c%d{}" % i] * 3 + [None, None, None, "", " "])
-    if rng.random() < 0.55:
-        c["mjs"] = rng.sample(JS_FILES, rng.randint(1, 3))
-        if rng.random() < 0.15:
-            c["mjs"].append("TAG:" + rng.choice(JS_FILES[:3]))       # SafeString tag, custom attributes
-    if rng.random() < 0.5:
-        fs = rng.sample(CSS_FILES, rng.randint(1, 3))
-        form = rng.random()
-        if form < 0.4:
-            c["mcss"] = {"all": fs}
-        elif form < 0.75:
-            c["mcss"] = {"all": fs[:1], "print": fs[1:] + fs[:1]} if len(fs) > 1 else {"print": fs}
-        else:
-            c["mcss"] = fs   # list form (django-components normalises to {"all": ...})
+        if i > 1 and rng.random() < 0.25:
+            b2 = rng.randrange(i)
+            anc1 = ancestors(classes, c["base"]) | {c["base"]}
+            anc2 = ancestors(classes, b2) | {b2}
+            if b2 not in anc1 and c["base"] not in anc2:
+                c["base2"] = b2
+    c["js"] = rng.choice(["/*js%d*/" % i] * 4 + [None, None, "", "  \n", "/*same*/"])
+    c["css"] = rng.choice([".c%d{}" % i] * 3 + [None, None, None, "", " ", ".same{}"])
+    gen_media(rng, c, shared)
+    r = rng.random()
+    if r < 0.12:
+        c["extend"] = False
+    elif r < 0.27 and i > 0:
+        c["extend"] = sorted(rng.sample(range(i), rng.randint(1, min(2, i))))
     c["jsdata"] = rng.random() < 0.12
     c["cssdata"] = rng.random() < 0.08
     c["root"] = rng.choice(["div", "div", "multi", "text", "bare"])
-    c["tpl"] = gen_nodes(rng, [j for j in range(i + 1, ncls)], 2, in_class=True, allow_ph=allow_ph, budget=[rng.randint(0, 4)])
     return c
 
 
-def gen_nodes(rng, usable, depth, in_class, allow_ph, budget, slot_ok=True):
+def class_slots(c):
+    """Slot names a class template declares ('d' = the default slot)."""
+    out = []
+
+    def walk(nodes):
+        for nd in nodes:
+            if nd[0] == "slot":
+                out.append("d")
+                walk(nd[1])
+            elif nd[0] == "nslot":
+                out.append(nd[1])
+                walk(nd[2])
+            elif nd[0] in ("for", "if", "el"):
+                walk(nd[2])
+    walk(c.get("tpl", []))
+    return out
+
+
+def gen_fills(rng, slots, usable, depth, in_class, allow_ph, budget, decl):
+    names = [n for n in dict.fromkeys(slots)]
+    rng.shuffle(names)
+    names = names[:rng.randint(0, len(names))]
+    if rng.random() < 0.15:
+        names.append("zz")            # a fill for a slot the component does not have
+    fills = []
+    for n in names:
+        fills.append([n, gen_nodes(rng, usable, depth - 1, in_class, allow_ph, budget, decl, slot_ok=False) if depth > 0 else [["t", "f"]],
+                      rng.choice([None, None, None, "yes", "no"])])
+    return fills
+
+
+def gen_nodes(rng, usable, depth, in_class, allow_ph, budget, decl, slot_ok=True):
+    """decl[j] = slot names of class j (known for every j in `usable`)."""
     out = []
     n = rng.randint(0, 3)
     for _ in range(n):
@@ -282,40 +363,91 @@ def gen_nodes(rng, usable, depth, in_class, allow_ph, budget, slot_ok=True):
             break
         budget[0] -= 1
         r = rng.random()
-        if r < 0.15:
+        if r < 0.12:
             out.append(["t", rng.choice(["x", " y ", "<i>z</i>", "<!-- c -->", "<br/>"])])
         elif r < 0.6 and usable:
             j = rng.choice(usable)
-            body = gen_nodes(rng, usable, depth - 1, in_class, allow_ph, budget, slot_ok=False) if depth > 0 and rng.random() < 0.5 else None
-            out.append(["c", j, body])
+            k = rng.random()
+            sub = depth > 0 and rng.random() < 0.55
+            if k < 0.45:
+                out.append(["c", j, gen_nodes(rng, usable, depth - 1, in_class, allow_ph, budget, decl, slot_ok=False) if sub else None])
+            elif k < 0.7:
+                out.append(["cf", j, gen_fills(rng, decl[j], usable, depth, in_class, allow_ph, budget, decl)])
+            elif k < 0.87:
+                out.append(["dyn", j, gen_nodes(rng, usable, depth - 1, in_class, allow_ph, budget, decl, slot_ok=False) if sub else None,
+                            rng.choice(["name", "var"])])
+            else:
+                out.append(["dynf", j, gen_fills(rng, decl[j], usable, depth, in_class, allow_ph, budget, decl)])
         elif r < 0.72 and depth > 0:
-            out.append(["for", rng.choice([0, 1, 2, 2, 3]), gen_nodes(rng, usable, depth - 1, in_class, allow_ph, budget, slot_ok=False)])
+            out.append(["for", rng.choice([0, 0, 1, 2, 2, 3]), gen_nodes(rng, usable, depth - 1, in_class, allow_ph, budget, decl, slot_ok=False)])
         elif r < 0.82 and depth > 0:
-            out.append(["if", rng.random() < 0.5, gen_nodes(rng, usable, depth - 1, in_class, allow_ph, budget, slot_ok=False)])
-        elif r < 0.9 and in_class and slot_ok and not any(x[0] == "slot" for x in out):
-            out.append(["slot", gen_nodes(rng, usable, depth - 1, in_class, allow_ph, budget, slot_ok=False) if depth > 0 else []])
-        elif r < 0.94 and depth > 0:
-            out.append(["el", rng.choice(["span", "section"]), gen_nodes(rng, usable, depth - 1, in_class, allow_ph, budget, slot_ok=False)])
+            out.append(["if", rng.random() < 0.5, gen_nodes(rng, usable, depth - 1, in_class, allow_ph, budget, decl, slot_ok=False)])
+        elif r < 0.88 and depth > 0:
+            out.append(["el", rng.choice(["span", "section"]), gen_nodes(rng, usable, depth - 1, in_class, allow_ph, budget, decl, slot_ok=False)])
         elif allow_ph and rng.random() < 0.5:
             out.append([rng.choice(["jsdep", "cssdep"])])
     return out
 
 
+def add_slots(rng, tpl, usable, decl, budget):
+    """Insert the default slot and/or named slots into a class template (top level, or inside a loop / element / if)."""
+    want = []
+    if rng.random() < 0.5:
+        want.append("d")
+    for n in SLOT_NAMES:
+        if rng.random() < 0.3:
+            want.append(n)
+    for n in want:
+        dflt = gen_nodes(rng, usable, 1, True, False, budget, decl, slot_ok=False) if rng.random() < 0.5 else []
+        node = ["slot", dflt] if n == "d" else ["nslot", n, dflt]
+        w = rng.random()
+        if w < 0.12:
+            node = ["for", rng.choice([0, 2, 2, 3]), [node]]      # a slot in a loop: its fill is rendered n times
+        elif w < 0.2:
+            node = ["el", "section", [node]]
+        elif w < 0.26:
+            node = ["if", rng.random() < 0.6, [node]]
+        tpl.insert(rng.randint(0, len(tpl)), node)
+
+
 def gen_prog(rng, uni=None, ph_in_classes=None):
-    ncls = rng.randint(1, 4)
+    ncls = rng.randint(1, 5)
     uni = rng.random() < 0.35 if uni is None else uni
     ph_in_classes = rng.random() < 0.12 if ph_in_classes is None else ph_in_classes
     names = set()
-    classes = [gen_class(rng, i, ncls, names, ph_in_classes, uni) for i in range(ncls)]
-    # at most one slot per class template (already ensured at top level); page
-    page = gen_nodes(rng, list(range(ncls)), 2, in_class=False, allow_ph=False, budget=[rng.randint(0, 6)])
+    shared = {"js": [], "css": []}
+    classes = []
+    for i in range(ncls):
+        classes.append(gen_class(rng, i, ncls, classes, names, ph_in_classes, uni, shared))
+    # templates, last class first: a class uses only classes with a higher index, whose slots are then known
+    decl = {}
+    for i in range(ncls - 1, -1, -1):
+        usable = list(range(i + 1, ncls))
+        budget = [rng.randint(0, 4)]
+        tpl = gen_nodes(rng, usable, 2, True, ph_in_classes, budget, decl)
+        add_slots(rng, tpl, usable, decl, [2])
+        classes[i]["tpl"] = tpl
+        decl[i] = class_slots(classes[i])
+    # the page may leave classes unused (registered, never rendered)
+    usable = list(range(ncls))
+    if ncls > 1 and rng.random() < 0.4:
+        usable = sorted(rng.sample(usable, rng.randint(1, ncls - 1)))
+    page = gen_nodes(rng, usable, 2, False, False, [rng.randint(0, 6)], decl)
     shell = rng.choice(["full", "full", "full", "nohead", "nobody", "none", "spaced"])
     return {"classes": classes, "page": page, "shell": shell,
             "js_ph": rng.choice([0, 0, 1, 1, 2]) if rng.random() < 0.5 else 0,
             "css_ph": rng.choice([0, 0, 1, 1, 2]) if rng.random() < 0.5 else 0}
 
 
-def nodes_src(nodes, loopvar=[0]):
+def fills_src(fills):
+    s = []
+    for name, nodes, cond in fills:
+        f = '{%% fill "%s" %%}%s{%% endfill %%}' % (name, nodes_src(nodes))
+        s.append("{%% if %s %%}%s{%% endif %%}" % (cond, f) if cond else f)
+    return "".join(s)
+
+
+def nodes_src(nodes):
     s = []
     for nd in nodes:
         k = nd[0]
@@ -326,12 +458,24 @@ def nodes_src(nodes, loopvar=[0]):
                 s.append('{%% component "c04_%d" / %%}' % nd[1])
             else:
                 s.append('{%% component "c04_%d" %%}%s{%% endcomponent %%}' % (nd[1], nodes_src(nd[2])))
+        elif k == "cf":
+            s.append('{%% component "c04_%d" %%}%s{%% endcomponent %%}' % (nd[1], fills_src(nd[2])))
+        elif k == "dyn":
+            target = '"c04_%d"' % nd[1] if nd[3] == "name" else "k%d" % nd[1]
+            if nd[2] is None:
+                s.append('[[D]]{%% component "dynamic" is=%s / %%}' % target)
+            else:
+                s.append('[[D]]{%% component "dynamic" is=%s %%}%s{%% endcomponent %%}' % (target, nodes_src(nd[2])))
+        elif k == "dynf":
+            s.append('[[D]]{%% component "dynamic" is="c04_%d" %%}%s{%% endcomponent %%}' % (nd[1], fills_src(nd[2])))
         elif k == "for":
             s.append("{%% for v in r%d %%}%s{%% endfor %%}" % (nd[1], nodes_src(nd[2])))
         elif k == "if":
             s.append("{%% if %s %%}%s{%% endif %%}" % ("yes" if nd[1] else "no", nodes_src(nd[2])))
         elif k == "slot":
             s.append('{%% slot "d" default %%}%s{%% endslot %%}' % nodes_src(nd[1]))
+        elif k == "nslot":
+            s.append('{%% slot "%s" %%}%s{%% endslot %%}' % (nd[1], nodes_src(nd[2])))
         elif k == "el":
             s.append("<%s>%s</%s>" % (nd[1], nodes_src(nd[2]), nd[1]))
         elif k == "jsdep":
@@ -355,8 +499,7 @@ def class_tpl(i, c):
     return "%s%s" % (tag, body) if body else "%s<b>b</b>" % tag    # "bare": the first root element may be a child / placeholder
 
 
-def page_src(prog):
-    inner = nodes_src(prog["page"])
+def shell_src(prog, inner):
     cssph = "[[C]]{% component_css_dependencies %}" * prog["css_ph"]
     jsph = "[[J]]{% component_js_dependencies %}" * prog["js_ph"]
     sh = prog["shell"]
@@ -371,6 +514,77 @@ def page_src(prog):
     return "%s%s%s" % (cssph, inner, jsph)
 
 
+def page_src(prog):
+    return shell_src(prog, nodes_src(prog["page"]))
+
+
+def has_node(prog, kinds):
+    def walk(nodes):
+        for nd in nodes:
+            if nd[0] in kinds:
+                return True
+            if nd[0] in ("for", "if", "el") and walk(nd[2]):
+                return True
+            if nd[0] == "slot" and walk(nd[1]):
+                return True
+            if nd[0] == "nslot" and walk(nd[2]):
+                return True
+            if nd[0] in ("c", "dyn") and nd[2] and walk(nd[2]):
+                return True
+            if nd[0] in ("cf", "dynf") and any(walk(f[1]) for f in nd[2]):
+                return True
+        return False
+    return walk(prog["page"]) or any(walk(c["tpl"]) for c in prog["classes"])
+
+
+def features(prog):
+    """Feature histogram keys of a program (written to the evidence)."""
+    f = []
+    for k, kinds in (("named-fill", ("cf", "dynf")), ("dynamic", ("dyn", "dynf")), ("named-slot", ("nslot",)), ("default-slot", ("slot",)),
+                     ("loop", ("for",)), ("placeholder-in-class", ("jsdep", "cssdep"))):
+        if has_node(prog, kinds):
+            f.append(k)
+    cs = prog["classes"]
+    if any(c.get("extend") is False for c in cs):
+        f.append("extend-false")
+    if any(isinstance(c.get("extend"), list) for c in cs):
+        f.append("extend-list")
+    if any(c.get("base") is not None and cs[c["base"]].get("base") is not None for c in cs):
+        f.append("chain>=3")
+    if any(c.get("base2") is not None for c in cs):
+        f.append("two-bases")
+    if any(isinstance(c.get("mcss"), dict) and len({x for v in c["mcss"].values() for x in v}) < sum(len(v) for v in c["mcss"].values()) for c in cs):
+        f.append("css-file-under-2-media")
+    if any(any(ord(ch) > 127 for ch in c["name"]) for c in cs):
+        f.append("non-ascii-name")
+    if any(c["name"].count("_") >= 2 or c["name"][0] == "_" for c in cs):
+        f.append("underscore-name")
+    if any(any(ch.isdigit() for ch in c["name"]) for c in cs):
+        f.append("digit-name")
+    if _has_for0(prog):
+        f.append("loop-0-iterations")
+    return f
+
+
+def _has_for0(prog):
+    def walk(nodes):
+        for nd in nodes:
+            if nd[0] == "for" and nd[1] == 0:
+                return True
+            if nd[0] in ("for", "if", "el") and walk(nd[2]):
+                return True
+            if nd[0] == "slot" and walk(nd[1]):
+                return True
+            if nd[0] == "nslot" and walk(nd[2]):
+                return True
+            if nd[0] in ("c", "dyn") and nd[2] and walk(nd[2]):
+                return True
+            if nd[0] in ("cf", "dynf") and any(walk(f[1]) for f in nd[2]):
+                return True
+        return False
+    return walk(prog["page"]) or any(walk(c["tpl"]) for c in prog["classes"])
+
+
 CTX = {"r0": [], "r1": [0], "r2": [0, 1], "r3": [0, 1, 2], "yes": True, "no": False}
 
 
@@ -383,28 +597,35 @@ class Built:
         self.prog, self.registry = prog, registry
         _prog_counter[0] += 1
         self.n = _prog_counter[0]
-        fake_module("verif_c04_p%d" % self.n)
+        mod = fake_module("verif_c04_p%d" % self.n)
         self.classes = []
         for i, c in enumerate(prog["classes"]):
-            base = self.classes[c["base"]] if c["base"] is not None else Component
-            attrs = {"template": class_tpl(i, c), "__module__": "verif_c04_p%d" % self.n}
-            if c["js"] is not None or c["base"] is None:
+            bases = tuple(self.classes[b] for b in (c.get("base"), c.get("base2")) if b is not None) or (Component,)
+            attrs = {"template": class_tpl(i, c), "__module__": mod}
+            if c["js"] is not None or c.get("base") is None:
                 attrs["js"] = c["js"]
-            if c["css"] is not None or c["base"] is None:
+            if c["css"] is not None or c.get("base") is None:
                 attrs["css"] = c["css"]
-            if c["mjs"] or c["mcss"] is not None:
+            if c["mjs"] or c["mcss"] is not None or "extend" in c:
                 m = {}
                 if c["mjs"]:
                     m["js"] = [mark_safe('<script src="%s" defer></script>' % f[4:]) if f.startswith("TAG:") else f for f in c["mjs"]]
                 if c["mcss"] is not None:
                     m["css"] = c["mcss"]
+                if "extend" in c:
+                    m["extend"] = c["extend"] if c["extend"] is False else [self.classes[b] for b in c["extend"]]
                 attrs["Media"] = type("Media", (), m)
             if c["jsdata"]:
                 attrs["get_js_data"] = (lambda k: lambda self, *a, **kw: {"k": k})(i)
             if c["cssdata"]:
                 attrs["get_css_data"] = (lambda k: lambda self, *a, **kw: {"c": k})(i)
-            self.classes.append(type(c["name"], (base,), attrs))
-        self.page_cls = type("C04Page", (Component,), {"template": "[[P]]" + page_src(prog), "__module__": "verif_c04_p%d" % self.n})
+            self.classes.append(type(c["name"], bases, attrs))
+        self.page_cls = type("C04Page", (Component,), {"template": "[[P]]" + page_src(prog), "__module__": mod})
+        # the same page with its content handed in from Python as a slot
+        self.page2_cls = type("C04Page2", (Component,), {"template": "[[P]]" + shell_src(prog, '{% slot "body" default / %}'), "__module__": mod})
+        self.ctx = dict(CTX)
+        for i, cls in enumerate(self.classes):
+            self.ctx["k%d" % i] = cls
 
     def __enter__(self):
         for i, cls in enumerate(self.classes):
@@ -420,59 +641,87 @@ class Built:
         import sys
         sys.modules.pop("verif_c04_p%d" % self.n, None)
 
-    # files a class declares, own + inherited (Media.extend default), as the generator wrote them
-    def declared(self, i, kind):
+    def clsof(self, x):
+        if x == "P":
+            return self.page_cls
+        if x == "D":
+            from django_components import DynamicComponent
+            return DynamicComponent
+        return self.classes[x]
+
+    # files a class delivers: its own Media plus the Media of the classes Media.extend selects (documented semantics:
+    # True/absent = all bases, False = none, list = exactly those classes), as the generator wrote them
+    def declared(self, i, kind, _seen=None):
         c = self.prog["classes"][i]
         if kind == "js":
             own = [f[4:] if f.startswith("TAG:") else f for f in c["mjs"]]
         else:
             m = c["mcss"]
             own = [] if m is None else (list(m) if isinstance(m, list) else [f for fs in m.values() for f in fs])
-        inh = self.declared(c["base"], kind) if c["base"] is not None else []
-        return own + inh
+        ext = c.get("extend", True)
+        if ext is False:
+            sel = []
+        elif ext is True:
+            sel = [b for b in (c.get("base"), c.get("base2")) if b is not None]
+        else:
+            sel = list(ext)
+        out = list(own)
+        for b in sel:
+            out += self.declared(b, kind)
+        return out
 
     def table(self, with_page):
+        from django_components import DynamicComponent
         tbl = [(cls._class_hash, cinfo_of(cls)) for cls in self.classes]
+        tbl.append((DynamicComponent._class_hash, cinfo_of(DynamicComponent)))
         if with_page:
             tbl.append((self.page_cls._class_hash, cinfo_of(self.page_cls)))
+            tbl.append((self.page2_cls._class_hash, cinfo_of(self.page2_cls)))
         return tbl
 
 
-PATHS = ["template+render_dependencies", "middleware", "Component.render", "Component.render(nodeps)+render_dependencies"]
+PATHS = ["template+render_dependencies", "middleware", "Component.render", "Component.render(nodeps)+render_dependencies",
+         "Component.render(slots=prerendered)", "DynamicComponent.render"]
 
 
 def render_paths(bu, typ, path):
     """-> (intermediate content with markers or None, final html str)."""
     import djsetup
     from django.template import Context, Template
+    from django.utils.safestring import mark_safe
     from django_components import render_dependencies
     prog = bu.prog
+    djsetup.reset_ids()
     if path == PATHS[0]:
-        djsetup.reset_ids()
-        mid = Template(page_src(prog)).render(Context(dict(CTX)))
+        mid = Template(page_src(prog)).render(Context(dict(bu.ctx)))
         return mid, render_dependencies(mid, typ)
     if path == PATHS[1]:
         from django.http import HttpResponse
         from django_components.dependencies import ComponentDependencyMiddleware
-        djsetup.reset_ids()
-        mid = Template(page_src(prog)).render(Context(dict(CTX)))
+        mid = Template(page_src(prog)).render(Context(dict(bu.ctx)))
         resp = ComponentDependencyMiddleware(lambda req: HttpResponse(mid))(None)
         return mid, resp.content.decode("utf-8")
     if path == PATHS[2]:
-        djsetup.reset_ids()
-        return None, bu.page_cls.render(context=dict(CTX), type=typ)
-    djsetup.reset_ids()
-    mid = bu.page_cls.render(context=dict(CTX), render_dependencies=False)
-    return mid, render_dependencies(mid, typ)
+        return None, bu.page_cls.render(context=dict(bu.ctx), type=typ)
+    if path == PATHS[3]:
+        mid = bu.page_cls.render(context=dict(bu.ctx), render_dependencies=False)
+        return mid, render_dependencies(mid, typ)
+    if path == PATHS[4]:
+        inner = Template(nodes_src(prog["page"])).render(Context(dict(bu.ctx)))
+        return None, bu.page2_cls.render(slots={"body": mark_safe(inner)}, type=typ)
+    if path == PATHS[5]:
+        from django_components import DynamicComponent
+        return None, DynamicComponent.render(context=dict(bu.ctx), kwargs={"is": bu.page_cls}, type=typ)
+    raise ValueError(path)
 
 
-_vis = re.compile(r"\[\[(\d+|P|J|C)\]\]")
+_vis = re.compile(r"\[\[(\d+|P|J|C|D)\]\]")
 
 
 def visible(html):
-    """Visible instance tags, in document order: class indices / 'P'; and the placeholder counts."""
+    """Visible instance tags, in document order: class indices / 'P' / 'D'; and the placeholder counts."""
     seq = _vis.findall(html)
-    return [x if x == "P" else int(x) for x in seq if x not in ("J", "C")], seq.count("J"), seq.count("C")
+    return [x if x in ("P", "D") else int(x) for x in seq if x not in ("J", "C")], seq.count("J"), seq.count("C")
 
 
 _idre = re.compile(r"(data-djc-id-)(\w{6})")
@@ -494,5 +743,99 @@ def first_occ(seq):
 
 def media_url(path):
     """What Django's Media prints for a declared path (static() without STATIC_URL = the quoted path)."""
+    return htmllib.unescape(media_attr(path, "js")[5:-1])
+
+
+_attr_cache = {}
+
+
+def media_attr(path, kind):
+    """The literal `src="..."` / `href="..."` Django's Media writes for a declared path."""
     from django.forms import Media
-    return htmllib.unescape(re.search(r'src="([^"]+)"', Media(js=[path]).render_js()[0]).group(1))
+    key = (path, kind)
+    if key not in _attr_cache:
+        if kind == "js":
+            _attr_cache[key] = re.search(r'src="[^"]+"', Media(js=[path]).render_js()[0]).group(0)
+        else:
+            _attr_cache[key] = re.search(r'href="[^"]+"', list(Media(css={"all": [path]}).render_css())[0]).group(0)
+    return _attr_cache[key]
+
+
+# ------------------------------------------------------------------------------------------------
+# emit side: record every call of insert_component_dependencies_comment
+# ------------------------------------------------------------------------------------------------
+class EmitRecorder:
+    """Wraps django_components.component.insert_component_dependencies_comment (the name the renderer calls)."""
+
+    def __init__(self):
+        import django_components.component as comp_mod
+        self.mod = comp_mod
+        self.calls = []
+
+    def __enter__(self):
+        self.orig = self.mod.insert_component_dependencies_comment
+        orig, calls = self.orig, self.calls
+
+        def wrapper(content, component_cls, component_id, js_input_hash, css_input_hash):
+            out = orig(content, component_cls=component_cls, component_id=component_id, js_input_hash=js_input_hash,
+                       css_input_hash=css_input_hash)
+            calls.append((component_cls._class_hash, component_id, js_input_hash or "", css_input_hash or "", str(out)[:len(str(out)) - len(str(content))]))
+            return out
+        self.mod.insert_component_dependencies_comment = wrapper
+        return self
+
+    def __exit__(self, *a):
+        self.mod.insert_component_dependencies_comment = self.orig
+
+
+def cut_at_markers(mid, calls):
+    """Cut the rendered content at the markers the recorded calls wrote -> (pieces [(text, part)], tail) or an error string."""
+    pos = []
+    for h, rid, js, css, lit in calls:
+        n = mid.count(lit)
+        if n != 1:
+            return "marker %r written by one call occurs %d times in the rendered content" % (lit, n)
+        pos.append((mid.index(lit), len(lit), (h, rid, js, css)))
+    pos.sort()
+    pieces, at = [], 0
+    for p, ln, part in pos:
+        if p < at:
+            return "overlapping markers"
+        pieces.append((mid[at:p], part))
+        at = p + ln
+    return pieces, mid[at:]
+
+
+_ph_re = re.compile(r'<link name="CSS_PLACEHOLDER"( data-djc-css-\w{6}="")?((?: data-djc-id-\w{6}="")*)(/?)>'
+                    r'|<script name="JS_PLACEHOLDER"( data-djc-css-\w{6}="")?((?: data-djc-id-\w{6}="")*)></script>', re.A)
+
+
+def cut_at_placeholders(text):
+    """Marker-free text -> ([(text, (kind, css|None, [ids], slash))], tail), by the harness's own regex."""
+    pieces, at = [], 0
+    for m in _ph_re.finditer(text):
+        if m.group(0).startswith("<link"):
+            css, ids, slash, kind = m.group(1), m.group(2), m.group(3) == "/", "css"
+        else:
+            css, ids, slash, kind = m.group(4), m.group(5), False, "js"
+        pieces.append((text[at:m.start()], (kind, css[14:20] if css else None, re.findall(r"data-djc-id-(\w{6})", ids), slash)))
+        at = m.end()
+    return pieces, text[at:]
+
+
+def c_part(p):
+    return "(%s, %s, %s, %s)" % tuple(cstr(b(x)) for x in p)
+
+
+def c_doc_case(mid, pieces, tail):
+    return "(%s, %s, %s)" % (cstr(b(mid)), clist(["(%s, %s)" % (cstr(b(t)), c_part(p)) for t, p in pieces]), cstr(b(tail)))
+
+
+def c_phspec(p):
+    kind, css, ids, slash = p
+    return "{| ph_kind := %s; ph_css := %s; ph_ids := %s; ph_slash := %s |}" % (
+        c_kind(kind), copt(css, lambda s: cstr(b(s))), clist([cstr(b(i)) for i in ids]), "true" if slash else "false")
+
+
+def c_phdoc_case(text, pieces, tail):
+    return "(%s, %s, %s)" % (cstr(b(text)), clist(["(%s, %s)" % (cstr(b(t)), c_phspec(p)) for t, p in pieces]), cstr(b(tail)))
